@@ -581,6 +581,46 @@ func ruleDFCOVER(c *Ctx, r *Report) {
 			r.bad(rule, "wrapper|leaf-kinds", c.instrPos(p.Ret), fmt.Sprintf("%s returns a bare leaf of kind %v unscoped although a default field is set (only some leaf kinds are wrapped)", fnName(pt.Wrapper), left))
 		}
 	}
+	// every value the wrapper can return (all returns, loop-independent) is its argument or
+	// Equals(field, term) with the field name exactly as given
+	var retVals []ssa.Value
+	for _, b := range pt.Wrapper.Blocks {
+		for _, in := range b.Instrs {
+			if ret, ok := in.(*ssa.Return); ok && len(ret.Results) == 1 {
+				var flat func(v ssa.Value, d int)
+				flat = func(v ssa.Value, d int) {
+					if ph, ok := v.(*ssa.Phi); ok && d < 5 {
+						for _, e := range ph.Edges {
+							if e != v {
+								flat(e, d+1)
+							}
+						}
+						return
+					}
+					retVals = append(retVals, v)
+				}
+				flat(ret.Results[0], 0)
+			}
+		}
+	}
+	for _, v := range retVals {
+		if v == ssa.Value(pt.Wrapper.Params[0]) {
+			continue
+		}
+		okShape := false
+		if call, ok := v.(*ssa.Call); ok && call.Call.StaticCallee() != nil {
+			bops := c.ctorOperator(call.Call.StaticCallee())
+			if len(bops) == 1 && bops[0] == "expr.Equals" && len(call.Call.Args) == 2 {
+				k := c.key(call.Call.Args[0], nil)
+				if (k == "$1" || k == "conv:expr.Column($1)") && c.resolve(call.Call.Args[1], nil) == ssa.Value(pt.Wrapper.Params[0]) {
+					okShape = true
+				}
+			}
+		}
+		if !okShape {
+			r.bad("DF-COLUMN", "wrapper|result|"+c.key(v, nil), c.pos(pt.Wrapper.Pos()), "the default-field wrapper can return "+c.key(v, nil)+", which is neither its argument nor Equals(field, term) with the field name exactly as configured: the scoping differs from the single-term case and from what erasing `f:` undoes")
+		}
+	}
 	if !wrapsSomething {
 		r.bad(rule, "wrapper|wraps", c.pos(pt.Wrapper.Pos()), "the default-field wrapper never wraps anything")
 	} else if !r.seenKeys[string(Violated)+"\x00"+rule+"|wrapper|leaf-kinds"] && !r.seenKeys[string(Known)+"\x00"+rule+"|wrapper|leaf-kinds"] {
